@@ -20,6 +20,38 @@ CHECKS = {
         ref="3 C07"),
 }
 
+CHECKS["C01"] = dict(
+    text="Theorem C01_encode (Props/C01.v): for every assembler spelling (every row of the ISA table Spec/Isa.v and every documented "
+         "alias, 160 spellings), every core it exists on, every operand tuple the ISA allows, every instruction address and whatever "
+         "source operands denote those values, the encoder model emits exactly the table's words, low byte first, and an independent "
+         "decoder maps them back to the statement. Proof: kernel-checked exhaustive sweeps of every one-word operand space, the 16 low "
+         "address bits of jmp/call/lds/sts kept symbolic, a pc-shift lemma for relative operands. Tie: base opcodes/lengths/mnemonic "
+         "table regenerated from /repo by executing the real code (Gen/OpTable.v); operand packing by correspondence with "
+         "instruction::process on the complete one-word operand space (265k cases).",
+    note=BASE + " Modelled rather than verified: instruction/mod.rs::process (as Model/Encode.v), expr conversions; Spec/Isa.v is my "
+         "transcription of the AVR Instruction Set Manual.",
+    tech="Coq proof (exhaustive kernel sweeps + symbolic lemmas) over a hand-written model with regenerated opcode table + exhaustive differential correspondence",
+    ref="3 C01")
+CHECKS["C03"] = dict(
+    text="Theorems C03_reachable / C03_unreachable (Props/C03.v): for all 22 relative spellings, every instruction address pc >= 0 and "
+         "every target t in Z: if d = t-(pc+1) fits the field the encoder emits the word whose decoded displacement is exactly d, "
+         "otherwise (for any preceding operands) no machine code is produced - no wrap, no truncation. Unbounded in pc and t (lia + "
+         "sweep of the 128/4096 in-range displacements). Program-level placement is C02.",
+    note=BASE + " Modelled rather than verified: the rjmp/rcall/br arms of process.",
+    tech="Coq proof (arithmetic lemmas + finite sweep) + differential correspondence at both range limits",
+    ref="3 C03")
+CHECKS["C04"] = dict(
+    text="Theorems C04_window_full / C04_window_reduced (Props/C04.v): for every mnemonic and every operand list of a finite, explicitly "
+         "defined window (all registers, all index forms, values around every field boundary and at the 16/22/32/64-bit limits, 0-3 "
+         "operands; 44k lists per mnemonic) the model either returns an error value or emits exactly the ISA encoding of the statement "
+         "as written (kernel-checked exhaustive sweep) - a BOUNDED theorem, the bound is in the statement; C04_guards: the value guards "
+         "reject everything outside their field for all of Z; C03_unreachable covers relative operands for all of Z. Beyond the window "
+         "the claim rests on correspondence + oracle sweep over wider windows (170k cases incl. 2^63 extremes).",
+    note=BASE + " Honest limit: universality over all operand values is proved for the guards and relative operands only, not yet "
+         "composed through every mnemonic (DESIGN.md section 3 C04).",
+    tech="Coq proof over a finite kernel-swept window + unbounded guard lemmas + differential correspondence/oracle sweep",
+    ref="3 C04")
+
 NOT_APPLICABLE = {}
 
 PENDING = ("claimed in DESIGN.md, machinery not built yet in this commit; listed here so that nothing unbuilt is claimed "
